@@ -109,11 +109,17 @@ class SuperNet(DNAS):
         :rtype: nn.Module
         """
         model = self.seed
-        # `convert` forces `eval()` on the seed: restore the training status afterwards
+        # `convert` forces `eval()` on the seed and runs an inference that re-samples the
+        # coefficients of the combiners: restore the training status and the sampled coefficients
+        # (which the cost is computed, and differentiated, from) afterwards
         training_status = {m: m.training for m in self.seed.modules()}
+        theta_alpha = {m: m.theta_alpha for m in self.seed.modules()
+                       if isinstance(m, SuperNetCombiner)}
         model, _, _ = convert(model, self._input_example, 'export')
         for m, status in training_status.items():
             m.training = status
+        for m, sampled in theta_alpha.items():
+            m.theta_alpha = sampled
         return model
 
     def summary(self) -> Dict[str, Dict[str, Any]]:
